@@ -15,7 +15,9 @@ CORPORA = [
 ]
 OPTIONS = [dict(), dict(ngram_range=(1, 2)), dict(ngram_range=(2, 2)), dict(ngram_range=(1, 3)), dict(ngram_range=(2, 3)),
            dict(ngram_range=(1, 2), stop_words=["the", "is", "a"]), dict(stop_words="english", ngram_range=(1, 2)), dict(lowercase=False, ngram_range=(1, 2)),
-           dict(min_df=2), dict(max_df=0.7, ngram_range=(1, 2)), dict(max_features=5, ngram_range=(1, 2)), dict(binary=True, ngram_range=(1, 2))]
+           dict(min_df=2), dict(max_df=0.7, ngram_range=(1, 2)), dict(max_features=5, ngram_range=(1, 2)), dict(binary=True, ngram_range=(1, 2)),
+           dict(stop_words=["the", "is", "a", "hello"]), dict(stop_words="english"), dict(ngram_range=(3, 3)), dict(binary=True, lowercase=False),
+           dict(ngram_range=(2, 2), stop_words=["the", "words", "x"])]
 
 
 def cases(tier, seed):
